@@ -71,7 +71,7 @@ def gen_random(ctx, n):
     rnd = random.Random(ctx.seed * 7919 + 13)
     scen = []
     for i in range(n):
-        style = ["free", "bytewise", "kchunk", "prefix", "sched", "fail", "partial", "shutdown", "sched"][i % 9]
+        style = ["free", "bytewise", "kchunk", "prefix", "sched", "fail", "partial", "shutdown", "sched", "jumbo"][i % 10]
         s = dict(id="rnd-%d-%s" % (i + 1, style), k="in", seed=ctx.seed * 1000 + i, sched=[], style=style)
         nf = rnd.choice([60, 120, 160])
         s["frames"] = rand_frames(rnd, nf)
@@ -89,6 +89,12 @@ def gen_random(ctx, n):
                 chunks.append(carry + cut)
                 carry = f[1] - cut
             s["chunks"] = chunks
+        elif style == "jumbo":
+            # more frames larger than a pooled buffer's initial capacity (2048) than the pool has buffers (50): every buffer grows,
+            # is recycled and must come back to the pool (PoolConservation of Stream.tla, observed as delivery of every later frame)
+            s["frames"] = [["error", rnd.choice([2049, 2052, 3000, 4096, 6000])] if j % 2 == 0 else [rnd.choice(["echo", "barrier", "hello"]), 8] for j in range(140)]
+            s["frames"] = [f if f[0] != "hello" else ["hello", 16] for f in s["frames"]]
+            s["chunks"] = [rnd.randint(1, 3000) for _ in range(rnd.randint(0, 300))]
         elif style == "free":
             s["chunks"] = [rnd.randint(1, 1500) for _ in range(rnd.randint(0, 300))]
             s["maxprocs"] = rnd.choice([0, 1, 2, 4])
@@ -164,7 +170,7 @@ def run(ctx):
         "aliasing variant is refuted. Schedules simulated from the same specification with the real constants (pool 50, 25 parsers, "
         "90-120 frames, chunks <= 40 bytes incl. splits inside the length prefix, slow-consumer phases, failures, shutdown) are imposed "
         "on the real MessageStream through a scripted net.Conn, a gating Parser and a token-driven consumer; randomly scheduled and "
-        "free-running executions (frames 8 B - 6 KiB, byte-wise / k-byte / prefix-splitting chunkings, trailing partial frames, "
+        "free-running executions (frames 8 B - 6 KiB, byte-wise / k-byte / prefix-splitting chunkings, trailing partial frames, more jumbo frames than pool buffers, "
         "failures) run under the race detector. Every recorded event log is validated by TLC against StreamExt.tla, one "
         "specification step per event, incl. the final re-observation of every delivered message."
         % ("" if q else ", and for pool 3 / 3 parsers / 4 frames (one duplicated) / any chunking / failure anywhere"),
